@@ -66,6 +66,36 @@ class IV:
     def __contains__(self, k):
         return k in self.d
 
+    # StackDict is a dict subclass: the plain dict interface writes the table directly
+    def update(self, *a, **k):
+        self.d.update(dict(*a, **k))
+
+    def setdefault(self, k, v=None):
+        return self.d.setdefault(k, v)
+
+    def __delitem__(self, k):
+        if k not in self.d:
+            raise LiftRaise(f"KeyError: index {k} has no value")
+        del self.d[k]
+
+    def items(self):
+        return list(self.d.items())
+
+    def keys(self):
+        return list(self.d.keys())
+
+    def values(self):
+        return list(self.d.values())
+
+    def copy(self):
+        return dict(self.d)
+
+    def __len__(self):
+        return len(self.d)
+
+    def __iter__(self):
+        return iter(list(self.d))
+
     def snapshot(self):
         return (dict(self.d), len(self.l))
 
